@@ -16,6 +16,9 @@
     M10 sampleSR_selects / sampleSR_reward   next state follows row T a s; reward is R s a
     M11 sampleSOR_obs_selects      observation follows the row of the sampled next state
     M12 not_selects_current_vose   the constructor as it is: [3/4,1/4] → index 0 is not selected with 3/4 (but 1/2)
+    M13 sparse_current_selects_exact      sparse scan as it is, stored sum exactly 1: column row[k].1 has probability row[k].2
+    M14 sparse_current_not_total_selects  sparse scan as it is, accepted row of sum 1 - 2^-21: a column of the next row has probability 2^-21
+    M15 projectFixed_idempotent    projectFixed (projectFixed v) = projectFixed v
 -/
 import AITB.Props.C08
 import Mathlib.Algebra.Order.Field.Rat
@@ -606,4 +609,64 @@ theorem selects_current_vose_half :
   rw [vose_current_example_two]
   obtain ⟨c, ht⟩ := alias_cert [2, 2] [0, 1] 0 rfl (by simp)
   exact ⟨_, c, ht.trans (by decide +kernel)⟩
+
+/-! ## M13–M15: the sparse sampler as it is, in the same vocabulary; idempotence of the repaired projection -/
+
+/-- **M13** the sparse sampler as it is, stored values summing to exactly one: every draw `u < 1`
+    is below the row sum, so the missing end-of-row test never matters and the column stored at
+    position `k` is selected with probability exactly its stored value -/
+theorem sparse_current_selects_exact (row : List (Nat × Rat))
+    (hs : row.Pairwise (fun a b => a.1 < b.1)) (hnn : ∀ e ∈ row, 0 ≤ e.2)
+    (hsum : (row.map (·.2)).sum = 1) (k : Nat) (hk : k < row.length) (rest : List (Nat × Rat)) :
+    SelectsWithProb (fun u => (sampleSparse row rest u).getD 0) (row[k]).1 (row[k]).2 := by
+  have hne : row ≠ [] := by intro h; subst h; simp at hk
+  obtain ⟨ivs, c, ht⟩ := sparseFixed_selects 0 row k hs hnn hsum hne hk
+  refine ⟨ivs, ms_cert_congr _ _ _ _ _ ?_ c, ht⟩
+  intro u hu hu1
+  have := sparseFixed_agrees 0 row rest u hnn hu (by rw [hsum]; exact hu1)
+  simp only [this, Option.getD_some]
+
+/-- test (M13) -/
+example : SelectsWithProb (fun u => (sampleSparse [(3, 1/4), (7, 3/4)] [(9, 1)] u).getD 0) 7 (3/4) :=
+  sparse_current_selects_exact [(3, 1/4), (7, 3/4)] (by simp) (by norm_num) (by norm_num) 1 (by simp) _
+
+/-- **M14** the sparse sampler as it is on a row accepted by `isProbability` (sum `1 - 2^-21`):
+    column 2, which the row does not store (it is the first stored entry of the next row), is
+    selected with positive probability `2^-21` -/
+theorem sparse_current_not_total_selects :
+    SelectsWithProb (fun u => (sampleSparse [(0, 1/2), (1, 1/2 - 1/2^21)] [(2, 1)] u).getD 0) 2 (1/2^21) := by
+  refine ⟨[(1 - 1/2^21, 1)], ⟨?_, ?_, List.pairwise_singleton _ _⟩, ?_⟩
+  · intro u hu hu1
+    simp only [List.mem_singleton, exists_eq_left, inIv]
+    by_cases h : (1 : Rat) - 1/2^21 ≤ u
+    · have hw := sparse_walks_off [(0, 1/2), (1, 1/2 - 1/2^21)] [(2, 1)] u (by norm_num)
+        (by norm_num; linarith)
+      have hgt : (1 : Rat) > u - (([(0, 1/2), (1, 1/2 - 1/2^21)] : List (Nat × Rat)).map (·.2)).sum := by
+        norm_num; linarith
+      simp only [hw, sparseGo, if_pos hgt, Option.getD_some, true_iff]
+      exact ⟨h, hu1⟩
+    · have hlt : u < (([(0, 1/2), (1, 1/2 - 1/2^21)] : List (Nat × Rat)).map (·.2)).sum := by
+        norm_num; linarith [not_le.mp h]
+      have ha := sparseFixed_agrees 0 [(0, 1/2), (1, 1/2 - 1/2^21)] [(2, 1)] u (by norm_num) hu hlt
+      have hm := sparseFixed_in_support 0 [(0, 1/2), (1, 1/2 - 1/2^21)] u (by simp)
+      simp only [ha, Option.getD_some]
+      constructor
+      · intro e; rw [e] at hm; simp at hm
+      · rintro ⟨h', _⟩; exact absurd h' h
+  · intro iv hiv
+    rw [List.mem_singleton] at hiv; subst hiv
+    norm_num
+  · rw [ms_totalLen_singleton]; norm_num
+
+/-- … and the column is not one the row stores -/
+example : (2 : Nat) ∉ ([(0, 1/2), (1, 1/2 - 1/2^21)] : List (Nat × Rat)).map (·.1) := by simp
+
+/-- **M15** the repaired projection is idempotent -/
+theorem projectFixed_idempotent (v : List Rat) (hne : v ≠ []) :
+    projectFixed (projectFixed v) = projectFixed v :=
+  projectFixed_fixes_valid _ (projectFixed_valid v hne)
+
+/-- test (M15) -/
+example : projectFixed (projectFixed [3, -1, 1]) = projectFixed [3, -1, 1] :=
+  projectFixed_idempotent _ (by simp)
 end AITB.Sampling
